@@ -84,6 +84,18 @@ MKINDS = ["dense_sym", "herm_mv", "herm_all", "herm_inside", "lowrank_herm", "mu
 FWD_CYCLE = ["cg", "bicgstab", "custom_exactsolve", "broyden1", "gmres", None]
 BCK_CYCLE = ["default", "exactsolve", "custom_exactsolve", "cg", "bicgstab", "gmres", "broyden1", "spy", "cg_default"]
 GMRES_A = ["lowrank_const", "lowrank_const_herm"]
+# structure of E (group 'estruct').  The tensor handed to solve is the differentiated leaf itself except in the last four classes, where it is a
+# stride-0 view of / a product with a smaller leaf:
+#   alleq            columns equal within every batch entry (entries differ)          full       one value everywhere (torch.full)
+#   zeros            exactly zero                                                     ones_mult  c * ones, c a short binary fraction
+#   someeq           two of >= 3 columns equal                                        alleq_partbatch  columns equal in some batch entries only
+#   batchshared      every batch entry holds the same row of distinct shifts          none       random E (the special values are in B)
+#   expview          scalar leaf .expand(*BE, ncols)                                  expview_cols  leaf (*BE, 1) .expand over the columns
+#   expview_batch    leaf (ncols,) .expand over the batch axes                        derived_full  scalar leaf * ones(*BE, ncols)
+ESTRUCTS = ["alleq", "full", "zeros", "ones_mult", "someeq", "alleq_partbatch", "batchshared", "none", "expview", "expview_cols",
+            "expview_batch", "derived_full"]
+ESTRUCT_NEEDS_BATCH = ("alleq_partbatch", "batchshared", "expview_batch")
+ESTRUCT_VIEW = ("expview", "expview_cols", "expview_batch", "derived_full")
 
 
 # ------------------------------------------------------------------------------------------------------- case list
@@ -142,6 +154,37 @@ def cases(seed, tier):
                 _constrain(d, rng)
                 out.append(d)
                 j += 1
+    # directed: SPECIAL STRUCTURE in the values / memory layout of E (and of B) with E itself differentiated: all columns bitwise equal, exactly
+    # zero, a multiple of ones, some columns equal, batch entries sharing one row, stride-0 views of a smaller leaf ... x every forward method
+    # (incl. plain exactsolve) x every backward setting x {E, E+M}; the (forward, backward, structure) triples are walked systematically from a
+    # seed-dependent offset
+    ne = 340 if tier == "quick" else 3400
+    ecombos = [(f, b) for b in BCK_CYCLE for f in FWD_CYCLE + ["exactsolve"]]
+    off = sub_seed(seed, "c02e_off") % (len(ecombos) * len(ESTRUCTS))
+    for j in range(ne):
+        rng = random.Random(sub_seed(seed, "c02e", j))
+        k = j + off
+        fwd, bck = ecombos[k % len(ecombos)]
+        es = ESTRUCTS[(k // len(ecombos) + k % len(ecombos)) % len(ESTRUCTS)]
+        d = {"group": "estruct", "seed": sub_seed(seed, "c02es", j), "fwd": fwd, "bck": bck, "akind": rng.choice(AKINDS),
+             "mkind": rng.choice(MKINDS), "emode": rng.choice(["E", "EM"]), "batch": rng.randrange(len(gen.BATCH_TUPLES_4)),
+             "dtype": rng.choice(["float64", "float64", "complex128"]), "spectrum": rng.choice(["spd", "indef", "nonherm", "nonherm"]),
+             "n": rng.choice(sizes), "ncols": rng.choice([2, 2, 3, 3, 4]), "tol": rng.choice(["tight", "tight", "tight", "default"]),
+             "special": rng.choice([None] * 8 + ["zerocol_cot", "realE"]), "kappa": rng.choice([3.0, 10.0, 30.0]),
+             "variant": [None, None, "nlloss", None, "chained", "nlloss_chained"][j % 6], "estruct": es,
+             "bstruct": rng.choice([None, None, None, "dupcols", "dupcols_some"])}
+        if es == "none":
+            # random E (or no E at all): the special values are in B only
+            d["bstruct"] = rng.choice(["dupcols", "dupcols", "dupcols_some"])
+            d["emode"] = rng.choice(["none", "E", "EM"])
+        _constrain(d, rng)
+        if es == "someeq" and d["ncols"] < 3:
+            d["estruct"] = "alleq"
+        if d["estruct"] in ESTRUCT_NEEDS_BATCH:
+            BE = gen.BATCH_TUPLES_4[d["batch"]][2]
+            if len(BE) == 0 or max(BE) < 2:
+                d["batch"] = 3 if d["akind"] == "jac" else rng.choice([3, 5, 7])
+        out.append(d)
     from vf import c02_extra
     out.extend(c02_extra.cases(seed, tier))
     return out
@@ -574,6 +617,52 @@ def _reference(Ad, Md, B, E, full_b, n, ncols, dt):
     return torch.linalg.solve(S, Bx).squeeze(-1).transpose(-2, -1)
 
 
+def _structure_E(E0, es, rng, scale):
+    """impose the value structure `es` on a random E0 (*BE, ncols); returns a fresh contiguous tensor"""
+    nb = E0.dim() - 1
+    ncols = E0.shape[-1]
+    if es in ("alleq", "expview_cols"):
+        return E0[..., :1].expand_as(E0).clone()
+    if es in ("full", "expview", "derived_full"):
+        return torch.full_like(E0, E0.flatten()[0].item())
+    if es == "zeros":
+        return torch.zeros_like(E0)
+    if es == "ones_mult":
+        return torch.ones_like(E0) * (rng.choice([1.0, -1.0, 0.5, -0.25, 2.0, -0.75]) * min(scale * 2.5, 1.0))
+    if es == "someeq":
+        i, j = rng.sample(range(ncols), 2)
+        E1 = E0.clone()
+        E1[..., j] = E1[..., i]
+        return E1
+    if es == "alleq_partbatch":
+        E1 = E0.clone().reshape(-1, ncols)
+        pick = [b for b in range(E1.shape[0]) if rng.random() < 0.5] or [0]
+        if len(pick) == E1.shape[0]:
+            pick = pick[:-1]
+        for b in pick:
+            E1[b] = E1[b, 0]
+        return E1.reshape(E0.shape)
+    if es in ("batchshared", "expview_batch"):
+        return E0[(0,) * nb].expand_as(E0).clone()
+    raise HarnessBug("unknown E structure %s" % es)
+
+
+def _e_leaf_and_map(E0, es):
+    """(value of the differentiated leaf, map leaf -> tensor handed to solve) for a structured E0"""
+    shape = tuple(E0.shape)
+    nb = E0.dim() - 1
+    if es == "expview":
+        return E0.flatten()[0].clone(), (lambda t: t.expand(shape))
+    if es == "expview_cols":
+        return E0[..., :1].clone(), (lambda t: t.expand(shape))
+    if es == "expview_batch":
+        return E0[(0,) * nb].clone(), (lambda t: t.expand(shape))
+    if es == "derived_full":
+        ones = torch.ones(shape, dtype=torch.float64)
+        return E0.flatten()[0].clone(), (lambda t: t * ones)
+    return E0, None
+
+
 def _inner(c, x):
     return (c.conj() * x).sum().real
 
@@ -637,6 +726,15 @@ def run_case(desc):
     # classes in which a solver may run with its default tolerance (1e-6) are kept at cond <= 12
     loose = desc["tol"] == "default" or bck in ("default", "cg_default")
     kbound = 12.0 if loose else min(KMAX, 4 * desc["kappa"])
+    # special structure of E / B (group 'estruct'); classes that need a batch of shifts degrade to 'alleq' when E ends up unbatched
+    estruct = desc.get("estruct") if emode in ("E", "EM") else None
+    bstruct = desc.get("bstruct")
+    if estruct == "none":
+        estruct = None
+    if estruct in ESTRUCT_NEEDS_BATCH and (len(BE) == 0 or max(BE) < 2):
+        estruct = "alleq"
+    if estruct == "someeq" and ncols < 3:
+        estruct = "alleq"
     if emode in ("E", "EM"):
         scale = 1.0
         for attempt in range(10):
@@ -648,6 +746,9 @@ def run_case(desc):
                 complexE = False
             if spectrum == "spd" and attempt >= 1 and not complexE:
                 E0 = -E0.abs() if not E0.is_complex() else (-(E0.real.abs())).to(dt)
+            if estruct is not None:
+                E0 = _structure_E(E0, estruct, rng, scale)
+                complexE = bool(E0.is_complex() and (E0.imag != 0).any())
             S0 = A0.unsqueeze(-3) - E0.reshape(*E0.shape, 1, 1) * Md0.unsqueeze(-3)
             sv = torch.linalg.svdvals(S0)
             kap = float((sv[..., 0] / sv[..., -1]).max())
@@ -657,6 +758,8 @@ def run_case(desc):
         else:
             E0 = torch.zeros(*BE, ncols, dtype=rdt if real_e else dt)
             complexE = False
+            if estruct is not None:
+                estruct = "zeros_fallback"
             S0 = A0.unsqueeze(-3) + 0 * Md0.unsqueeze(-3)
             sv = torch.linalg.svdvals(S0)
             kap = float((sv[..., 0] / sv[..., -1]).max())
@@ -669,9 +772,21 @@ def run_case(desc):
     B0 = torch.randn(*BB, n, ncols, dtype=dt, generator=tgen)
     if desc["special"] == "zeroB":
         B0 = torch.zeros_like(B0)
+    elif bstruct == "dupcols" and ncols >= 2:
+        B0 = B0[..., :1].expand_as(B0).clone()
+    elif bstruct == "dupcols_some" and ncols >= 2:
+        ci, cj = rng.sample(range(ncols), 2)
+        B0[..., cj] = B0[..., ci]
+    else:
+        bstruct = None
     leaves["B"] = _leaf(B0)
+    e_map = None
     if E0 is not None:
-        leaves["E"] = _leaf(E0)
+        if estruct in ESTRUCT_VIEW:
+            e0, e_map = _e_leaf_and_map(E0, estruct)
+            leaves["E"] = _leaf(e0)
+        else:
+            leaves["E"] = _leaf(E0)
     # some inputs do not require grad: they are still parameters of the operators / arguments of solve
     frozen = []
     if desc["special"] == "frozenA":
@@ -691,6 +806,9 @@ def run_case(desc):
     # `eff`: the tensors handed to the operators and to solve.  "chained": every one is its leaf times a (positive, real) scalar function of the
     # previous leaf, i.e. the inputs of solve depend on one another through autograd history (structure - Hermitian, SPD - is preserved)
     eff = leaves
+    if e_map is not None and "chained" not in variant:
+        eff = collections.OrderedDict(leaves)
+        eff["E"] = e_map(leaves["E"])
     if "chained" in variant:
         eff = collections.OrderedDict()
         prev = None
@@ -698,6 +816,8 @@ def run_case(desc):
             eff[k] = v * (1.0 + 0.03 * torch.tanh(prev.real.mean() * 3.0 + 0.5)) if (prev is not None and v.requires_grad) else v
             if v.requires_grad:
                 prev = v
+        if e_map is not None:
+            eff["E"] = e_map(eff["E"])
         with torch.no_grad():
             Ae = a.dense(eff)
             if emode in ("E", "EM"):
@@ -745,6 +865,10 @@ def run_case(desc):
 
     cfg = "%s:%s:%s%s%s%s" % (fwd or "auto", bck, emode, ":realE" if real_e else "", ":autoherm" if akind == "dense_autoherm" else "",
                               (":" + desc["variant"]) if desc.get("variant") else "")
+    if estruct is not None:
+        cfg += ":E=" + estruct
+    if bstruct is not None:
+        cfg += ":B=" + bstruct
     if real_e:
         obs.count("real_E_in_complex_system")
     obs.note(kappa=kap, complexE=complexE, leaves={k: list(v.shape) for k, v in leaves.items()}, full_batch=list(full_b), frozen=frozen)
